@@ -626,6 +626,27 @@ theorem decodedDType_of (d : DType) (ba pr : Int) (hk : d.kind = "b" ∨ d.kind 
   subst hsz
   by_cases hp : pr = 1 <;> cases d <;> simp [DType.kind] at hk <;> simp [DType.itemsize, decodedDType, hp]
 
+/-- every accepted request has 1 or 3 samples per pixel (each family's own check) -/
+theorem spp_of_accepted (p : Params) (x : Frame) (r : Int) (h : AcceptSpec (Req.of p x) r) : x.spp = 1 ∨ x.spp = 3 := by
+  obtain ⟨_, hc⟩ := h
+  have hspp := Req.of_spp p x
+  simp only [NativeOK, BaselineOK, RleOK, JpegFamilyOK, hspp] at hc
+  have : (x.spp : Int) = 1 ∨ (x.spp : Int) = 3 := by
+    rcases hc with h | h | h | h
+    · rcases h.2.1 with h1 | h1
+      · exact Or.inl h1.1
+      · exact Or.inr h1.1
+    · rcases h.2.2.2.2.1 with h1 | h1
+      · exact Or.inl h1.1
+      · exact Or.inr h1.1
+    · exact h.2.1
+    · rcases h.2.2.1 with h1 | h1
+      · exact Or.inl h1.1
+      · exact Or.inr h1.1
+  rcases this with h1 | h3
+  · left; exact_mod_cast h1
+  · right; exact_mod_cast h3
+
 /-- **cells**: an accepted native frame with >= 8 bits allocated whose values fit the stored bits decodes to
     itself -- for every shape, every supported dtype and every content.  (YBR photometric
     interpretations excluded: pydicom converts them to RGB on the way out, see `ybr_full_*`.) -/
@@ -675,7 +696,13 @@ theorem native_cells_decode (c : CodecImpl) (conv : List Int → List Int) (p : 
     simp only [bind, Except.bind, hdsz]
     have hlen : bytes.length = x.rows * x.cols * x.spp * x.dtype.itemsize := by
       rw [hbytes, encodeCells_length, hwf.1]
-    rw [if_neg (by rw [shapeInRange_of_shapeOK p x hshape]; decide), if_neg (by omega), if_neg (by omega)]
+    have hs13 : ¬ (x.spp ≠ 1 ∧ x.spp ≠ 3) := by
+      rcases hspp with h1 | h3
+      · have : x.spp = 1 := by exact_mod_cast h1.1
+        omega
+      · have : x.spp = 3 := by exact_mod_cast h3.1
+        omega
+    rw [if_neg hs13, if_neg (by rw [shapeInRange_of_shapeOK p x hshape]; decide), if_neg (by omega), if_neg (by omega)]
     -- an accepted native colour frame is colour-by-pixel: no plane re-ordering on the way back
     have hnp : ¬ (x.spp > 1 ∧ p.planar = some 1) := by
       rintro ⟨hgt, hpl⟩
@@ -755,7 +782,10 @@ theorem encapsulated_decode (c : CodecImpl) (D : Params → Prop) (hc : c.Lossle
   have h31 : ¬ ((3 : Int) = 1) := by decide
   have h32 : ¬ ((3 : Int) = 2) := by decide
   simp only [h31, h32, ↓reduceIte]
-  rw [if_neg (by rw [shapeInRange_of_shapeOK p x hshape]; decide), hc p x bytes hD hcodec]
+  have hs13 : ¬ (x.spp ≠ 1 ∧ x.spp ≠ 3) := by
+    have := spp_of_accepted p x r (route_sound (Req.of p x) r (by rw [← encodeRoute_eq]; exact hr))
+    omega
+  rw [if_neg hs13, if_neg (by rw [shapeInRange_of_shapeOK p x hshape]; decide), hc p x bytes hD hcodec]
 
 
 
